@@ -18,6 +18,10 @@ def canon(tok):
         v = tok[2]
         return "C:%s" % (v if isinstance(v, str) else "%x" % v)
     if k in ("BE", "LE", "NE"):
+        src = str(tok[2]) if len(tok) > 2 else ""
+        if k in ("BE", "LE") and src.startswith("const:") and src[6:].isdigit() and tok[1]:
+            # the encoding of a constant is a constant byte string (D_xxxx.to_be_bytes() instead of two literal bytes)
+            return "C:" + int(src[6:]).to_bytes(tok[1], "big" if k == "BE" else "little").hex()
         return "%s%d" % (k, (tok[1] or 0) * 8)
     if k == "ARR":
         return "A%s" % tok[1]
